@@ -8,7 +8,8 @@
 //!                    "vmax":..,"braking_ratio":..,"mass_rot":..,"bearing":..,"rolling":..,"davis_b":..,
 //!                    "cd_area":..,"c0":..,"c1":..,"c2":..},..]},
 //!  "consist":{"kind":"default"} | {"kind":"mixed","locos":["conv"|"bel",..],"pdct":"RESGreedy"|"Proportional"},
-//!  "t0":s, "sched":"whole"|"bylink"|"timed"|"esttimes", "look":m}
+//!  "t0":s, "ramp":s (optional brake build-up time, default 0 as TrainSimBuilder sets it),
+//!  "sched":"whole"|"bylink"|"timed"|"esttimes", "look":m (bylink: extend when the end of authority is nearer)}
 //! Case descriptor (kind "table", emitted by BrakingCurve.tla): {"kind":"table","zones":[[o,v]..],"end":E}
 //!  — unit-mass train with a 2 N brake on flat, resistance-free track: `BrakingPoints::recalc` then
 //!  computes in exact small integers and can be compared with the model's table point by point.
@@ -19,8 +20,8 @@
 //!
 //! Trace records (all integers; offsets round(x*2^6), speeds floor/ceil(x*2^16), times round(x*2^3)):
 //!  Header {dom:{short,light}, tlen, ncars, amin, sched}
-//!  Build  {ok,msg}
-//!  Table  {ok,msg, sp:[[o,vceil]..], end, pts:[[o,lfloor,lceil,tfloor]..]}     after every extend_path
+//!  Build  {ok,msg,cls}                                                         cls = "internal" | "descriptive"
+//!  Table  {ok,msg,cls,toy, sp:[[o,vceil]..], end, pts:[[o,lfloor,lceil,tfloor]..]}   after every extend_path
 //!  Steps  {s:[[i,t,o,vfloor,vlfloor,vlceil,vtfloor]..]}                       chunks of consecutive steps
 //!  stepcap{steps}
 //!  Final  {ok,msg,steps,end,o,v}                                              end of the harness-driven run
@@ -228,13 +229,17 @@ fn dom_short(desc: &Value) -> bool {
 fn dom_light(desc: &Value) -> bool {
     let v = vmax(desc);
     let a = a_min(desc);
-    ncars(desc) < 10 || a <= 0.02 || v * v / (2.0 * a) > FT1000
+    // with a brake build-up time the controller looks ahead by speed * ramp_up_time * ramp_up_coeff (0.6,
+    // train_config.rs:515) and starts braking for the stop that much earlier
+    let ramp = desc.get("ramp").and_then(|x| x.as_f64()).unwrap_or(0.0);
+    ncars(desc) < 10 || a <= 0.02 || v * v / (2.0 * a) + v * ramp * 0.6 > FT1000
 }
 
 // ---------------------------------------------------------------------------------------------
 // projection
 
 fn table_event(sim: &SpeedLimitTrainSim, ok: bool, msg: &str) -> Value {
+    let cls = errcls_txt(msg);
     let sp: Vec<Value> = sim
         .path_tpc
         .speed_points()
@@ -254,7 +259,7 @@ fn table_event(sim: &SpeedLimitTrainSim, ok: bool, msg: &str) -> Value {
             json!([qi(o, OS), q_floor(l, VS), q_ceil(l, VS), q_floor(t, VS)])
         })
         .collect();
-    json!({"ev":"Table","ok":ok,"msg":msg,"toy":false,"sp":sp,"end":qi(sim.path_tpc.offset_end().value, OS),"pts":pts})
+    json!({"ev":"Table","ok":ok,"msg":msg,"cls":cls,"toy":false,"sp":sp,"end":qi(sim.path_tpc.offset_end().value, OS),"pts":pts})
 }
 fn step_rec(sim: &SpeedLimitTrainSim, i: usize) -> Value {
     let s = &sim.state;
@@ -282,19 +287,39 @@ impl Steps {
         }
     }
 }
+/// Class of an error text: "internal" = one of the solver's own consistency checks (`ensure!` on the power /
+/// force bounds it has just computed, speed_limit_train_sim.rs:461-464, :608-617, :625-643) — an assertion
+/// turned into an Err, not a description of the input; everything else is "descriptive".
+fn errcls_txt(full: &str) -> &'static str {
+    const INTERNAL: [&str; 4] = [
+        "Power wheel out is larger than max positive power",
+        "Power wheel out is larger than max negative power",
+        "Too much force requested from friction brake",
+        "pwr_pos_max >= si::Power::ZERO",
+    ];
+    if INTERNAL.iter().any(|k| full.contains(k)) {
+        "internal"
+    } else {
+        "descriptive"
+    }
+}
+fn errpair(e: &anyhow::Error) -> (String, &'static str) {
+    (errtxt(e), errcls_txt(&format!("{e:#}")))
+}
 /// walk_internal's loop condition (speed_limit_train_sim.rs:335-337)
 fn must_go_on(sim: &SpeedLimitTrainSim) -> bool {
     let end = sim.path_tpc.offset_end();
     sim.state.offset < end - 1000.0 * uc::FT || (sim.state.offset < end && sim.state.speed != uc::MPS * 0.0)
 }
-fn final_event(sim: &SpeedLimitTrainSim, ok: bool, msg: &str, steps: usize) -> Value {
-    json!({"ev":"Final","ok":ok,"msg":msg,"steps":steps,"end":qi(sim.path_tpc.offset_end().value, OS),
+fn final_event(sim: &SpeedLimitTrainSim, ok: bool, msg: &str, cls: &str, steps: usize) -> Value {
+    json!({"ev":"Final","ok":ok,"msg":msg,"cls":cls,"steps":steps,"end":qi(sim.path_tpc.offset_end().value, OS),
            "o":qi(sim.state.offset.value, OS),"v":q_floor(sim.state.speed.value, VS),
            "vc":q_ceil(sim.state.speed.value, VS)})
 }
 fn walk_event(api: &str, sim: &SpeedLimitTrainSim, r: &anyhow::Result<()>, mine: Option<&SpeedLimitTrainSim>) -> Value {
     let same = mine.map(|m| m.state.offset == sim.state.offset && m.state.speed == sim.state.speed && m.state.i == sim.state.i && m.state.time == sim.state.time);
-    json!({"ev":"Walk","api":api,"ok":r.is_ok(),"msg":r.as_ref().err().map(errtxt).unwrap_or_default(),
+    let (msg, cls) = r.as_ref().err().map(errpair).unwrap_or((String::new(), "descriptive"));
+    json!({"ev":"Walk","api":api,"ok":r.is_ok(),"msg":msg,"cls":cls,
            "i":sim.state.i,"end":qi(sim.path_tpc.offset_end().value, OS),
            "o":qi(sim.state.offset.value, OS),"v":q_floor(sim.state.speed.value, VS),"vc":q_ceil(sim.state.speed.value, VS),
            "same":same.unwrap_or(true)})
@@ -345,6 +370,10 @@ fn make_sim(desc: &Value, nlinks: usize) -> anyhow::Result<SpeedLimitTrainSim> {
     let lm = build::location_map(&[1], &[nlinks as u32]);
     let mut sim = tsb.make_speed_limit_train_sim(&lm, None, None, None)?;
     sim.set_save_interval(None);
+    // brake build-up time (TrainSimBuilder hard-codes 0 s; FricBrake::default() has 60 s)
+    if let Some(ramp) = desc.get("ramp").and_then(|x| x.as_f64()) {
+        sim.fric_brake.ramp_up_time = uc::S * ramp;
+    }
     Ok(sim)
 }
 
@@ -359,7 +388,7 @@ struct Run<'a> {
 enum Stop {
     Done,
     Cap,
-    Err(String),
+    Err(String, &'static str),
 }
 impl<'a> Run<'a> {
     /// one guarded step; Some(stop) ends the run
@@ -375,7 +404,10 @@ impl<'a> Run<'a> {
                 self.steps.push(self.tr, sim);
                 None
             }
-            Err(e) => Some(Stop::Err(errtxt(&e))),
+            Err(e) => {
+                let (m, c) = errpair(&e);
+                Some(Stop::Err(m, c))
+            }
         }
     }
     fn extend(&mut self, sim: &mut SpeedLimitTrainSim, net: &Network, links: &[LinkIdx]) -> Option<Stop> {
@@ -386,29 +418,31 @@ impl<'a> Run<'a> {
                 None
             }
             Err(e) => {
-                let m = errtxt(&e);
-                self.tr.emit(table_event(sim, false, &m));
-                Some(Stop::Err(m))
+                let (m, c) = errpair(&e);
+                let mut ev = table_event(sim, false, &m);
+                ev["cls"] = json!(c);
+                self.tr.emit(ev);
+                Some(Stop::Err(m, c))
             }
         }
     }
     fn finish(&mut self, sim: &SpeedLimitTrainSim, stop: Stop) -> bool {
-        if self.steps.n == 0 && !matches!(stop, Stop::Err(_)) {
+        if self.steps.n == 0 && !matches!(stop, Stop::Err(..)) {
             self.steps.push(self.tr, sim);
         }
         self.steps.flush(self.tr);
         match stop {
             Stop::Done => {
-                self.tr.emit(final_event(sim, true, "", self.steps.n));
+                self.tr.emit(final_event(sim, true, "", "descriptive", self.steps.n));
                 true
             }
             Stop::Cap => {
                 self.tr.emit(json!({"ev":"stepcap","steps":self.steps.n}));
-                self.tr.emit(final_event(sim, true, "stepcap", self.steps.n));
+                self.tr.emit(final_event(sim, true, "stepcap", "descriptive", self.steps.n));
                 false
             }
-            Stop::Err(m) => {
-                self.tr.emit(final_event(sim, false, &m, self.steps.n));
+            Stop::Err(m, c) => {
+                self.tr.emit(final_event(sim, false, &m, c, self.steps.n));
                 false
             }
         }
@@ -431,12 +465,13 @@ fn exec_run(desc: &Value, tr: &mut Tracer) -> anyhow::Result<()> {
     let route: Vec<LinkIdx> = (1..=n as u32).map(LinkIdx::new).collect();
     let sim0 = match make_sim(desc, n) {
         Ok(s) => {
-            tr.emit(json!({"ev":"Build","ok":true,"msg":""}));
+            tr.emit(json!({"ev":"Build","ok":true,"msg":"","cls":"descriptive"}));
             tr.emit(table_event(&s, true, "")); // the empty path: one speed point (train's own maximum), no braking point
             s
         }
         Err(e) => {
-            tr.emit(json!({"ev":"Build","ok":false,"msg":errtxt(&e)}));
+            let (m, c) = errpair(&e);
+            tr.emit(json!({"ev":"Build","ok":false,"msg":m,"cls":c}));
             return Ok(());
         }
     };
@@ -450,10 +485,13 @@ fn exec_run(desc: &Value, tr: &mut Tracer) -> anyhow::Result<()> {
     if sched == "timed" || sched == "esttimes" {
         match make_est_times(sim0.clone(), &net) {
             Ok((etn, _con)) => {
-                tr.emit(json!({"ev":"EstTimes","ok":true,"msg":"","n":etn.val.len()}));
+                tr.emit(json!({"ev":"EstTimes","ok":true,"msg":"","cls":"descriptive","n":etn.val.len()}));
                 est = Some(etn);
             }
-            Err(e) => tr.emit(json!({"ev":"EstTimes","ok":false,"msg":errtxt(&e),"n":0})),
+            Err(e) => {
+                let (m, c) = errpair(&e);
+                tr.emit(json!({"ev":"EstTimes","ok":false,"msg":m,"cls":c,"n":0}))
+            }
         }
         if sched == "esttimes" {
             return Ok(());
@@ -524,16 +562,17 @@ fn exec_run(desc: &Value, tr: &mut Tracer) -> anyhow::Result<()> {
             let tp = match run_dispatch(&net, &[sim0.clone()], vec![etn], false, false) {
                 Ok(mut v) if v.len() == 1 => {
                     let tp = v.pop().unwrap();
-                    run.tr.emit(json!({"ev":"Dispatch","ok":true,"msg":"","n":tp.len(),
+                    run.tr.emit(json!({"ev":"Dispatch","ok":true,"msg":"","cls":"descriptive","n":tp.len(),
                         "tp": tp.iter().map(|x| json!([x.link_idx.idx(), qi(x.time.value, TS)])).collect::<Vec<_>>() }));
                     tp
                 }
                 Ok(v) => {
-                    run.tr.emit(json!({"ev":"Dispatch","ok":false,"msg":format!("{} plans for one train", v.len()),"n":0,"tp":[]}));
+                    run.tr.emit(json!({"ev":"Dispatch","ok":false,"msg":format!("{} plans for one train", v.len()),"cls":"descriptive","n":0,"tp":[]}));
                     return Ok(());
                 }
                 Err(e) => {
-                    run.tr.emit(json!({"ev":"Dispatch","ok":false,"msg":errtxt(&e),"n":0,"tp":[]}));
+                    let (m, c) = errpair(&e);
+                    run.tr.emit(json!({"ev":"Dispatch","ok":false,"msg":m,"cls":c,"n":0,"tp":[]}));
                     return Ok(());
                 }
             };
@@ -702,6 +741,8 @@ fn gen_base(r: &mut Rng, tier: &str, want: &str) -> Value {
     }
     let look = *r.pick(&[400i64, 1000, 2000, 3000, 5000]);
     let t0 = *r.pick(&[0i64, 0, 60, 3600, 86400]);
+    // brake build-up time: 0 s as TrainSimBuilder sets it, sometimes a few seconds (exercises the look-ahead)
+    let ramp = *r.pick(&[0i64, 0, 0, 0, 0, 0, 4, 4, 8, 8]);
     let speeds_base = [8i64, 10, 12, 15, 18, 20, 22, 25];
     let speeds_in = [4i64, 5, 6, 8, 10, 12, 15, 18];
     let mut elev0 = 0i64;
@@ -723,7 +764,7 @@ fn gen_base(r: &mut Rng, tier: &str, want: &str) -> Value {
         links.push(json!({"len":len,"head":head,"params":[],"rs":[],"elevs":elevs}));
     }
     let mut desc = json!({"kind":"run","oscale":1,"vscale":1,"escale":100,"links":links,
-        "train":{"cars":cars},"consist":consist,"t0":t0,"sched":sched,"look":look});
+        "train":{"cars":cars},"consist":consist,"t0":t0,"ramp":ramp,"sched":sched,"look":look});
     // restrictions: a base limit per link + 0..3 nested / overlapping ones; re-drawn until the
     // profile is in the wanted class
     let draw = |r: &mut Rng, len: i64, simple: bool| -> Vec<Value> {
@@ -770,7 +811,8 @@ fn gen_base(r: &mut Rng, tier: &str, want: &str) -> Value {
 }
 
 /// tiers: quick / thorough = random inputs outside the two known classes;
-/// "xshort" / "xlight" = inputs inside one class (used to find and record known inputs).
+/// "xshort" / "xlight" / "xlight2" = inputs INSIDE one class (ShortWindow; LightTrain with < 10 cars; LightTrain
+/// with 10-16 cars) — never used by the check, only to find and record the known inputs under known/.
 fn gen(seed: u64, n: usize, tier: &str) -> Vec<Value> {
     let want = match tier {
         "xshort" => "short",
